@@ -67,6 +67,9 @@ class Cfg(object):
         self.empty_containers = False  # some rests are written as an empty container ([]) instead of None
         self.bpm_on_empty = False  # a tempo may also ride on an empty container (a tempo mark on a silent beat)
         self.share_instruments = False  # tracks of a composition may share one instrument object
+        self.empty_track_p = 0  # 0 = never; otherwise one composition in empty_track_p has a track without any bar among the others
+        self.subclass_p = 0  # 0 = never; otherwise one sounding entry in subclass_p is held in a user subclass of NoteContainer, and one MIDI instrument in 2 is a user subclass of MidiInstrument
+        self.unsorted_p = 0  # 0 = never; otherwise one chord in unsorted_p is not in ascending order (as after nc[i] = note)
         self.twin_p = 0  # 0 = never; otherwise one bar in twin_p is followed by its enharmonic twin (same pitches, other spelling)
         self.__dict__.update(kw)
 
@@ -109,7 +112,7 @@ def bar_st(draw, cfg, meter=None, key=None, fill=None, channel=None):
         rem -= glen(g)
     if fill:
         # close exactly with the largest single-value groups that still fit
-        singles = sorted([g for g in cfg.groups if len(g) == 1], key=glen, reverse=True)
+        singles = sorted([g for g in cfg.groups if len(g) == 1 and g[0][0] != "num"], key=glen, reverse=True)
         while rem > 0:
             g = next((g for g in singles if glen(g) <= rem), None)
             if g is None:
@@ -123,6 +126,10 @@ def _entry(draw, cfg, v, content):
     e = {"v": list(v), "notes": draw(content)}
     if cfg.bpm_p and (e["notes"] or (cfg.bpm_on_empty and e["notes"] == [])) and draw(st.integers(0, cfg.bpm_p - 1)) == 0:
         e["bpm"] = draw(cfg.bpms)
+    if cfg.unsorted_p and e["notes"] and len(e["notes"]) > 1 and draw(st.integers(0, cfg.unsorted_p - 1)) == 0:
+        e["notes"] = draw(st.permutations(e["notes"]))
+    if cfg.subclass_p and e["notes"] and draw(st.integers(0, cfg.subclass_p - 1)) == 0:
+        e["sub"] = True
     return e
 
 
@@ -161,6 +168,8 @@ def track_st(draw, cfg):
     instr = None
     if kind == "midi":
         instr = {"kind": "midi", "nr": draw(st.integers(0, 127)), "name": draw(cfg.text)}
+        if cfg.subclass_p and draw(st.booleans()):
+            instr["sub"] = True
     elif kind == "generic":
         instr = {"kind": "generic", "name": draw(cfg.text)}
     name = draw(st.none() | cfg.text)
@@ -171,6 +180,8 @@ def track_st(draw, cfg):
 def comp_st(draw, cfg):
     n = draw(st.integers(1, cfg.max_tracks))
     tracks = [draw(track_st(cfg)) for _ in range(n)]
+    if cfg.empty_track_p and draw(st.integers(0, cfg.empty_track_p - 1)) == 0:
+        tracks[draw(st.integers(0, n - 1))]["bars"] = []
     comp = {"title": draw(cfg.text), "subtitle": draw(cfg.text), "author": draw(cfg.text), "tracks": tracks}
     if cfg.share_instruments and n > 1 and draw(st.booleans()):
         # several tracks played on one and the same instrument object
@@ -208,12 +219,20 @@ def features(comp_or_track):
             f.add("empty-container")
         if any(e["notes"] and len(e["notes"]) > 1 for e in es):
             f.add("chord")
-        if any(e["v"][0] != "ticks" and e["v"][1] > 0 for e in es):
+        if any(e["v"][0] not in ("ticks", "num") and e["v"][1] > 0 for e in es):
             f.add("dotted")
-        if any(e["v"][0] != "ticks" and e["v"][2] != 1 for e in es):
+        if any(e["v"][0] not in ("ticks", "num") and e["v"][2] != 1 for e in es):
             f.add("tuplet")
         if any(e["v"][0] == "ticks" for e in es):
             f.add("tick-value")
+        if any(e["v"][0] == "num" for e in es):
+            f.add("sub-tick-value")
+        if not t["bars"]:
+            f.add("zero-bar-track")
+        if any(e["notes"] and [T.pitch(n[0], n[1]) for n in e["notes"]] != sorted(T.pitch(n[0], n[1]) for n in e["notes"]) for e in es):
+            f.add("unsorted-chord")
+        if any(e.get("sub") for e in es) or (t.get("instr") or {}).get("sub"):
+            f.add("user-subclass")
         if any("bpm" in e for e in es):
             f.add("tempo-change")
         if any(all(not e["notes"] for e in b["entries"]) and b["entries"] for b in t["bars"]):
